@@ -33,9 +33,30 @@ def merged_over_unknown(rng):
     return c
 
 
+def unknown_member_stringified(rng):
+    """an object with a member check cannot know (provider output, undisclosed ciphertext), sorted BEFORE or AFTER statically
+    known siblings, rendered to a string by interpolation / fn::toString / fn::join / nested arrays"""
+    r = rng
+    unk = r.choice([("open", "p", ("obj", [])), ("cipher", G.envelope_repr(b"ct-one"))])
+    ukey = r.choice(["apiToken", "zzToken", "mid"])
+    members = [(ukey, unk), ("zone", ("str", "z1")), ("aaa", ("num", "1"))][: 2 + r.below(2)]
+    obj = ("obj", r.shuffle(members))
+    holder = r.choice([obj, ("arr", [obj, ("str", "x")]), ("obj", [("inner", obj)])])
+    ref = [("name", "cloud")]
+    sinks = [("s0", G.norm_interp([("cloud: ", ref), ("", None)])), ("s1", ("tostring", ("sym", ref))),
+             ("s2", ("join", ("str", ","), ("arr", [("tostring", ("sym", ref)), ("str", "t")]))),
+             ("s3", ("tob64", ("tostring", ("sym", ref))))]
+    vals = [("cloud", holder)] + r.shuffle(sinks)[: 1 + r.below(4)]
+    c = G.case_from_graph({"root": {"imports": [], "values": vals}}, "root")
+    c["provs"] = {"p": {"in": "always", "out": "always", "beh": "const", "const": G.xspec("token-from-provider")}}
+    c["sites"] = []
+    return c
+
+
 def gen(rng, tier):
     n = 4000 if tier == "thorough" else 350
     cases = [merged_over_unknown(rng.fork("m%d" % i)) for i in range(40 if tier == "thorough" else 16)]
+    cases += [unknown_member_stringified(rng.fork("u%d" % i)) for i in range(120 if tier == "thorough" else 40)]
     for i in range(n):
         clean = rng.chance(3, 4)
         g = G.RichGen(rng.fork("w%d" % i), bad_refs=not clean, nonobject_inputs=False, faulty=not clean)
